@@ -58,7 +58,7 @@ Clock(sorted, cap) ==
     IF Len(sorted) <= cap THEN [evict |-> <<>>, back |-> <<>>]
     ELSE ClockRun(sorted, Len(sorted) - cap, <<>>, <<>>)
 
-Ids(q) == [i \in 1..Len(q) |-> q[i].id]
+IdSeq(q) == [i \in 1..Len(q) |-> q[i].id]
 
 \* ---- declarative relation ---------------------------------------------------
 \* ev, bk: sequences of ids.  ents: sequence of entries.
